@@ -4,7 +4,7 @@ CONSTANTS
   MaxCalls = 3
   MemoAlways = FALSE
   TopoIds = {"line3", "line4r", "line2s", "line3m", "rect32", "rect32r", "rect22m"}
-  NTargetSets = 4
+  NTargetSets = 5
 INVARIANT ImageOK
 INVARIANT PickedContains
 INVARIANT OutsideRaises
